@@ -15,6 +15,7 @@ import (
 	"github.com/openGemini/openGemini/engine/immutable/colstore"
 	"github.com/openGemini/openGemini/engine/index/sparseindex"
 	"github.com/openGemini/openGemini/lib/fragment"
+	"github.com/openGemini/openGemini/lib/logstore"
 	"github.com/openGemini/openGemini/lib/record"
 	"github.com/openGemini/openGemini/lib/rpn"
 	"github.com/openGemini/openGemini/lib/tokenizer"
@@ -44,6 +45,9 @@ type BloomIn struct {
 	RPF        int       `json:"rpf"`
 	MinRows    int       `json:"minrows"`
 	Tag        string    `json:"tag,omitempty"`
+	// Vertical: the filters of one full vertical group (128 segments) are transposed by logstore.FlushVerticalFilter into
+	// the detached/OBS file format and read back through BloomFilterIndexReader.ReInit(OBSFilterPath) -> VerticalFilterReader
+	Vertical bool `json:"vertical,omitempty"`
 }
 
 type BAtomObs struct {
@@ -176,7 +180,7 @@ func colOf(in *BloomIn, name string) []*string {
 }
 
 // scanWith builds a reader for the given condition and schema and returns MayBeInFragment per segment and Scan ranges.
-func scanWith(dir string, cond influxql.Expr, schemaNames []string, segCnt int, rpf, minRows int) (kept []int, ranges [][2]int, errs string) {
+func scanWith(file interface{}, cond influxql.Expr, schemaNames []string, segCnt int, rpf, minRows int) (kept []int, ranges [][2]int, errs string) {
 	var schema record.Schemas
 	for _, n := range schemaNames {
 		schema = append(schema, record.Field{Name: n, Type: influx.Field_Type_String})
@@ -187,7 +191,7 @@ func scanWith(dir string, cond influxql.Expr, schemaNames []string, segCnt int, 
 		if err != nil {
 			return nil, err
 		}
-		if err = reader.ReInit(&tsspFile{p: dir + "/00000001-0001-00000001.tssp"}); err != nil {
+		if err = reader.ReInit(file); err != nil {
 			return nil, err
 		}
 		return reader, nil
@@ -270,10 +274,23 @@ func runBloomCase(id int, in *BloomIn, work string) *BloomOut {
 			return out
 		}
 		name := path.Join(dir, "00000001-0001-00000001."+cn+colstore.BloomFilterIndexFileSuffix)
+		if in.Vertical {
+			p := guard(func() { data = logstore.FlushVerticalFilter(nil, data) })
+			if p != "" {
+				out.Err = "FlushVerticalFilter panic: " + p
+				out.Oracle = append(out.Oracle, out.Err)
+				return out
+			}
+			name = path.Join(dir, sparseindex.BloomFilterFilePrefix+cn+sparseindex.BloomFilterFileSuffix)
+		}
 		if err := os.WriteFile(name, data, 0600); err != nil {
 			out.Err = err.Error()
 			return out
 		}
+	}
+	var file interface{} = &tsspFile{p: dir + "/00000001-0001-00000001.tssp"}
+	if in.Vertical {
+		file = sparseindex.NewOBSFilterPath("", dir, nil)
 	}
 	// brute force
 	start := 0
@@ -320,7 +337,7 @@ func runBloomCase(id int, in *BloomIn, work string) *BloomOut {
 		}
 		if a.Op == "match" && has(in.Indexed, a.Col) {
 			single := &BCond{Op: "match", Col: a.Col, Lit: a.Lit}
-			k, _, _ := scanWith(dir, single.expr(), []string{a.Col}, out.SegCnt, in.RPF, in.MinRows)
+			k, _, _ := scanWith(file, single.expr(), []string{a.Col}, out.SegCnt, in.RPF, in.MinRows)
 			ob.Hits = k
 		}
 		out.Atoms = append(out.Atoms, ob)
@@ -333,7 +350,7 @@ func runBloomCase(id int, in *BloomIn, work string) *BloomOut {
 		out.Ranges = [][2]int{{0, out.SegCnt}}
 		return out
 	}
-	kept, ranges, errs := scanWith(dir, in.Cond.expr(), out.Schema, out.SegCnt, in.RPF, in.MinRows)
+	kept, ranges, errs := scanWith(file, in.Cond.expr(), out.Schema, out.SegCnt, in.RPF, in.MinRows)
 	out.Kept, out.Err = kept, errs
 	if ranges != nil {
 		out.Ranges = ranges
@@ -539,4 +556,26 @@ func probeMinMaxSet() {
 		res["set_maybe"] = strconv.FormatBool(ok)
 	}
 	gen.Emit(map[string]interface{}{"skprobe": res})
+}
+
+// genVerticalCase: exactly one vertical group (FilterCntPerVerticalGorup segments of one row), column content indexed.
+func genVerticalCase(r *gen.Rand) *BloomIn {
+	in := genBloomCase(r)
+	n := int(logstore.GetConstant(logstore.CurrentLogTokenizerVersion).FilterCntPerVerticalGorup)
+	in.Vertical, in.Tag = true, "vertical"
+	in.Indexed = []string{"content"}
+	for len(in.Content) < n {
+		k := len(in.Content)
+		in.Content = append(in.Content, in.Content[k%len(in.N)])
+		in.Source = append(in.Source, in.Source[k%len(in.N)])
+		in.N = append(in.N, int64(k%3))
+	}
+	in.Content, in.Source, in.N = in.Content[:n], in.Source[:n], in.N[:n]
+	in.Sizes = nil
+	for i := 0; i < n; i++ {
+		in.Sizes = append(in.Sizes, 1)
+	}
+	in.LastMinus1 = false
+	in.RPF = 1
+	return in
 }
